@@ -205,12 +205,28 @@ type FaultWriter struct {
 	Failed  bool
 	FailIdx int
 	Enabled bool
+	// native sweep (no recorded inputs): fail at write number ForceIdx (1-based)
+	ForceIdx     int
+	ForcePartial bool
 }
 
 var ErrDisk = io.ErrClosedPipe
 
 func (w *FaultWriter) Write(p []byte) (int, error) {
 	w.Writes++
+	if w.ForceIdx > 0 {
+		if w.Writes == w.ForceIdx && !w.Failed {
+			w.Failed = true
+			w.FailIdx = w.Writes
+			if len(p) > 1 && w.ForcePartial {
+				w.Buf = append(w.Buf, p[:len(p)/2]...)
+				return len(p) / 2, ErrDisk
+			}
+			return 0, ErrDisk
+		}
+		w.Buf = append(w.Buf, p...)
+		return len(p), nil
+	}
 	if w.Enabled && !w.Failed && v.NondetBool("fault.write") {
 		w.Failed = true
 		w.FailIdx = w.Writes
